@@ -182,7 +182,7 @@ def oks(model):
                 elif isinstance(p, ast.List):
                     r.ok(n, 'entry copied into a map', sample=False)
                 elif isinstance(p, ast.Assign) and len(p.targets) == 1 and isinstance(p.targets[0], ast.Name) \
-                        and _alias_only_abs(fn, p.targets[0].id):
+                        and _alias_only_abs(fn, p.targets[0].id, p):
                     r.ok(n, 'entry kept in a local that is only used through abs() / a sign test',
                          nontrivial=True)
                 else:
@@ -192,9 +192,14 @@ def oks(model):
     return r
 
 
-def _alias_only_abs(fn, v):
+def _alias_only_abs(fn, v, assign=None):
     uses = [n for n in iter_scope(fn.node) if isinstance(n, ast.Name) and n.id == v
             and isinstance(n.ctx, ast.Load)]
+    if assign is not None:
+        # only the uses that this assignment reaches (the name may be re-used for something else further down)
+        from ..rdefs import reachdefs
+        rd = reachdefs(fn)
+        uses = [u for u in uses if any(k == 'assign' and node is assign.value for k, _n, node in rd.defs_of(u))]
     if not uses:
         return False
     for u in uses:
